@@ -136,7 +136,7 @@ Proof. vm_compute. repeat split; reflexivity. Qed.
 
 (** non-vacuity of C04_identity_among_raw: with C06's verified enumerator as [enum], on CH3I + NH3 (centre, forwards) the
     identity is found among the raw matches of the exhaustive strategy *)
-From SK Require Import lib.Mono model.C06_Model lib.C06_Spec proof.C04_Engine.
+From SK Require Import lib.Mono model.C06_Model lib.C06_Spec model.C04_Reactor proof.C04_Engine.
 Definition ex_S : hostg := substrate false exG exH.
 Definition ex_P : molg := match rule_of true false exG exH with Some (_, l, _) => pattern_of l | None => LG [] [] end.
 Example ex_identity_found :
@@ -150,7 +150,7 @@ Proof. vm_compute. repeat split; try reflexivity. intros E; discriminate E. Qed.
 (** non-vacuity of C04_pruned_results: the symmetric rule of ethane dehydrogenation (sG / sH above), raw = the two matches
     in the order that lists the swapped one first; faithful codes; the pruning keeps the swapped match only, and
     its_list on it regenerates the reaction *)
-From SK Require Import model.C11_Model proof.C04_Prune.
+From SK Require Import model.C11_Model model.C04_Reactor proof.C04_Prune.
 Definition s_cn (a : inode) : N := (a_el (iG a) + 100 * Z.to_N (a_hc (iG a)) + 10000 * Z.to_N (a_hc (iH a)))%N.
 Definition s_ce (x : iedge) : N := (Z.to_N (C03_Model.eG x) + 100 * Z.to_N (C03_Model.eH x))%N.
 Definition s_raw : list C03_Model.mapping := [[(1%N, 2%N); (2%N, 1%N)]; [(1%N, 1%N); (2%N, 2%N)]].
